@@ -3,13 +3,14 @@
 //
 // Case lines (strings are hex atoms, tokens and raw values S-expressions):
 //
-//	(doc <bytes> (<tok>...) (f <feature>...)) (obs <status> <raw> <read> <dec> (read2 <outcome> <otok>...) <mar>)
+//	(doc <bytes> (<tok>...) (f <feature>...)) (obs <status> <raw> <read> <dec> (read2 <outcome> <otok>...) <mar> <mar-in>)
 //	    a well-formed document; <tok>... is what encoding/xml's decoder yields for
 //	    its root element (the tree the model starts from); the observation is the
 //	    outcome of xml.Unmarshal(doc, &raw), the fields of raw, raw.TokenReader()
 //	    drained under the step bound 2*nodes+2 with the reader states after every
 //	    call, the tokens out of xml.NewTokenDecoder(raw.TokenReader()), a second
-//	    drain, and xml.Marshal(&raw) read again with encoding/xml.
+//	    drain, xml.Marshal(&raw) read again with encoding/xml, and the same for
+//	    xml.Marshal(&internal.Prop{Raw: {raw}}) (what stands inside the prop element).
 //	(bad <bytes> (<tok>...)) (obs <status>)
 //	    a document that is not well formed: tokens up to the decoder's error.
 //	(typed d|m <type> <bytes> (<tok>...)) (obs <status> <err via raw> <err direct> <equal>)
@@ -311,6 +312,48 @@ func marSx(v interface{}) (out string) {
 	return rereadSx(b)
 }
 
+// marInSx marshals the value inside a container of the library (the field
+// Raw []RawXMLValue `xml:",any"` of internal.Prop) and returns what a new
+// decoder reads inside the container element.
+func marInSx(v *RawXMLValue) (out string) {
+	defer func() {
+		if r := recover(); r != nil {
+			out = hx.L("panic")
+		}
+	}()
+	b, err := xml.Marshal(&verifhook.Prop{Raw: []RawXMLValue{*v}})
+	if err != nil {
+		return hx.L("err")
+	}
+	d := xml.NewDecoder(bytes.NewReader(b))
+	var toks []xml.Token
+	for {
+		t, err := d.Token()
+		if err == io.EOF {
+			break
+		}
+		if err != nil {
+			return hx.L("err")
+		}
+		toks = append(toks, xml.CopyToken(t))
+	}
+	propName := xml.Name{Space: "DAV:", Local: "prop"}
+	if len(toks) < 2 {
+		return hx.L("err")
+	}
+	if st, ok := toks[0].(xml.StartElement); !ok || st.Name != propName {
+		return hx.L("err")
+	}
+	if en, ok := toks[len(toks)-1].(xml.EndElement); !ok || en.Name != propName {
+		return hx.L("err")
+	}
+	items := []string{"ok"}
+	for _, t := range toks[1 : len(toks)-1] {
+		items = append(items, tokSx(t))
+	}
+	return hx.L(items...)
+}
+
 // usedRaw returns a value that has been used before: UnmarshalXML must reset
 // all three fields.
 func usedRaw() RawXMLValue {
@@ -329,7 +372,8 @@ func observeDoc(doc []byte) string {
 	dec := decSx(&raw)
 	read2 := read2Sx(&raw)
 	mar := marSx(&raw)
-	return hx.L("obs", "ok", view, read, dec, read2, mar)
+	marIn := marInSx(&raw)
+	return hx.L("obs", "ok", view, read, dec, read2, mar, marIn)
 }
 
 func docLine(doc []byte, feats []string) string {
